@@ -38,3 +38,4 @@ void he_JareckiLysyanskayaRVSS(void) { JareckiLysyanskayaRVSS *self; mpz_srcptr 
   __CPROVER_assert(!r, "REACHABILITY-CANARY (must fail): an accepted element exists"); }
 void he_HooghSchoenmakersSkoricVillegasVRHE(void) { HooghSchoenmakersSkoricVillegasVRHE *self; mpz_srcptr a; _Bool r = HooghSchoenmakersSkoricVillegasVRHE__CheckElement(self, a);
   __CPROVER_assert(!r, "REACHABILITY-CANARY (must fail): an accepted element exists"); }
+void h_JareckiLysyanskayaEDCF(void) { JareckiLysyanskayaEDCF *self; JareckiLysyanskayaEDCF__CheckGroup(self); }
